@@ -1,3 +1,251 @@
 import MgModel.C12.Ciphers
+import MgProof.C12.Lemmas
+/-!
+# C12 — DES / Triple-DES (FIPS 46-3): deciphering with the reversed key schedule
+inverts enciphering, for every key schedule
+
+Ingredients: `IP⁻¹ ∘ IP = id` and `IP ∘ IP⁻¹ = id` (composition of the two 64-entry
+tables, `decide`), the generic Feistel argument (no property of `f` is used), and
+the bit/byte conversions being mutually inverse.
+-/
 namespace MgProof.C12
+open MgModel.C12 MgModel.C12.Des MgModel.C12.Tables
+
+/-! ## selection tables -/
+
+theorem permute_length (t : List Nat) (x : Bits) : (permute t x).length = t.length := by
+  simp [permute]
+
+/-- composing two selections is selecting through the composed table -/
+theorem permute_permute (t1 t2 : List Nat) (x : Bits)
+    (h : ∀ p ∈ t1, 1 ≤ p ∧ p ≤ t2.length) :
+    permute t1 (permute t2 x) = permute (t1.map fun p => t2.getD (p - 1) 0) x := by
+  simp only [permute, List.map_map]
+  apply List.map_congr_left
+  intro p hp
+  obtain ⟨h1, h2⟩ := h p hp
+  have hlt : p - 1 < t2.length := by omega
+  simp [List.getD, hlt]
+
+/-- the identity table selects the input itself -/
+theorem permute_id (x : Bits) : permute (List.range' 1 x.length) x = x := by
+  apply List.ext_getElem
+  · simp [permute]
+  · intro i h1 h2
+    simp [permute, List.getD, h2]
+
+theorem fp_ip_table : desFP.map (fun p => desIP.getD (p - 1) 0) = List.range' 1 64 := by decide
+theorem ip_fp_table : desIP.map (fun p => desFP.getD (p - 1) 0) = List.range' 1 64 := by decide
+theorem fp_range : ∀ p ∈ desFP, 1 ≤ p ∧ p ≤ desIP.length := by decide
+theorem ip_range : ∀ p ∈ desIP, 1 ≤ p ∧ p ≤ desFP.length := by decide
+
+/-- `IP⁻¹(IP(x)) = x` on 64-bit blocks -/
+theorem fp_ip (x : Bits) (h : x.length = 64) : permute desFP (permute desIP x) = x := by
+  rw [permute_permute _ _ _ fp_range, fp_ip_table, ← h, permute_id]
+
+/-- `IP(IP⁻¹(x)) = x` on 64-bit blocks -/
+theorem ip_fp (x : Bits) (h : x.length = 64) : permute desIP (permute desFP x) = x := by
+  rw [permute_permute _ _ _ ip_range, ip_fp_table, ← h, permute_id]
+
+/-! ## Feistel network -/
+
+theorem xorBits_length (a b : Bits) : (xorBits a b).length = min a.length b.length := by
+  simp [xorBits]
+
+theorem xorBits_cancel : ∀ (a b : Bits), a.length ≤ b.length → xorBits (xorBits a b) b = a
+  | [], _, _ => by simp [xorBits]
+  | _ :: _, [], h => by simp at h
+  | a :: as, b :: bs, h => by
+    have := xorBits_cancel as bs (by simpa using h)
+    simp [xorBits] at this ⊢
+    exact this
+
+theorem f_length (r k : Bits) : (f r k).length = 32 := by
+  simp [f, permute_length]; decide
+
+theorem feistel_append (a b : List Bits) : ∀ lr, feistel (a ++ b) lr = feistel b (feistel a lr) := by
+  induction a with
+  | nil => intro lr; rfl
+  | cons k a ih => intro ⟨l, r⟩; simp [feistel, ih]
+
+theorem feistel_length (ks : List Bits) : ∀ l r : Bits, l.length = 32 → r.length = 32 →
+    (feistel ks (l, r)).1.length = 32 ∧ (feistel ks (l, r)).2.length = 32 := by
+  induction ks with
+  | nil => intro l r hl hr; exact ⟨hl, hr⟩
+  | cons k ks ih =>
+    intro l r hl hr
+    simp only [feistel]
+    exact ih r _ hr (by simp [xorBits_length, hl, f_length])
+
+/-- the Feistel network run with the reversed keys on the swapped halves undoes itself —
+whatever the round function is -/
+theorem feistel_inverse (ks : List Bits) : ∀ l r : Bits, l.length = 32 → r.length = 32 →
+    feistel ks.reverse ((feistel ks (l, r)).2, (feistel ks (l, r)).1) = (r, l) := by
+  induction ks with
+  | nil => intro l r _ _; rfl
+  | cons k ks ih =>
+    intro l r hl hr
+    simp only [feistel, List.reverse_cons, feistel_append]
+    rw [ih r (xorBits l (f r k)) hr (by simp [xorBits_length, hl, f_length])]
+    rw [xorBits_cancel l (f r k) (by simp [hl, f_length])]
+
+/-- **FIPS 46-3: deciphering = the same algorithm with K16..K1**, for every key schedule -/
+theorem cryptBits_inverse (ks : List Bits) (x : Bits) (hx : x.length = 64) :
+    cryptBits ks.reverse (cryptBits ks x) = x := by
+  have hip : (permute desIP x).length = 64 := by rw [permute_length]; decide
+  have hl : ((permute desIP x).take 32).length = 32 := by simp [hip]
+  have hr : ((permute desIP x).drop 32).length = 32 := by simp [hip]
+  obtain ⟨h1, h2⟩ := feistel_length ks _ _ hl hr
+  have hinv := feistel_inverse ks _ _ hl hr
+  generalize hfe : feistel ks ((permute desIP x).take 32, (permute desIP x).drop 32) = lr at h1 h2 hinv
+  obtain ⟨l', r'⟩ := lr
+  simp only at h1 h2 hinv
+  have e1 : cryptBits ks x = permute desFP (r' ++ l') := by
+    simp only [cryptBits, hfe]
+  rw [e1]
+  simp only [cryptBits]
+  rw [ip_fp (r' ++ l') (by simp [h1, h2])]
+  rw [List.take_left' h2, List.drop_left' h2, hinv]
+  simp only []
+  rw [List.take_append_drop, fp_ip x hx]
+
+theorem cryptBits_length (ks : List Bits) (x : Bits) : (cryptBits ks x).length = 64 := by
+  simp only [cryptBits]
+  rw [permute_length]; decide
+
+/-! ## bits and bytes -/
+
+theorem byteBits_length (b : Byte) : (byteBits b).length = 8 := by simp [byteBits]
+
+set_option maxRecDepth 100000 in
+theorem bitsVal_byteBits_nat : ∀ n, n < 256 →
+    BitVec.ofNat 8 (bitsVal (byteBits (BitVec.ofNat 8 n))) = BitVec.ofNat 8 n := by decide
+
+theorem ofNat_bitsVal_byteBits (b : Byte) : BitVec.ofNat 8 (bitsVal (byteBits b)) = b := by
+  have := bitsVal_byteBits_nat b.toNat b.isLt
+  simpa using this
+
+set_option maxRecDepth 100000 in
+theorem byteBits_ofNat_bitsVal : ∀ b0 b1 b2 b3 b4 b5 b6 b7 : Bool,
+    byteBits (BitVec.ofNat 8 (bitsVal [b0, b1, b2, b3, b4, b5, b6, b7])) = [b0, b1, b2, b3, b4, b5, b6, b7] := by
+  decide
+
+theorem bitsToBytesAux_cons (b : Byte) (rest : Bits) (fuel : Nat) :
+    bitsToBytesAux (fuel + 1) (byteBits b ++ rest) = b :: bitsToBytesAux fuel rest := by
+  have h8 := byteBits_length b
+  have hne : byteBits b ++ rest ≠ [] := by
+    intro h; have := congrArg List.length h; simp [h8] at this
+  cases hb : byteBits b ++ rest with
+  | nil => exact absurd hb hne
+  | cons y ys =>
+    simp only [bitsToBytesAux]
+    rw [← hb, List.take_left' h8, List.drop_left' h8, ofNat_bitsVal_byteBits]
+
+theorem bitsToBytesAux_nil (fuel : Nat) : bitsToBytesAux fuel [] = [] := by cases fuel <;> rfl
+
+/-- bytes → bits → bytes is the identity -/
+theorem bitsToBytes_bytesToBits (bs : Bytes) : bitsToBytes (bytesToBits bs) = bs := by
+  unfold bitsToBytes
+  have key : ∀ (bs : Bytes) (fuel : Nat), bs.length ≤ fuel →
+      bitsToBytesAux fuel (bytesToBits bs) = bs := by
+    intro bs
+    induction bs with
+    | nil => intro fuel _; simp [bytesToBits, bitsToBytesAux_nil]
+    | cons b bs ih =>
+      intro fuel h
+      cases fuel with
+      | zero => simp at h
+      | succ f =>
+        have : bytesToBits (b :: bs) = byteBits b ++ bytesToBits bs := by simp [bytesToBits]
+        rw [this, bitsToBytesAux_cons, ih f (by simpa using h)]
+  refine key bs _ ?_
+  have : (bytesToBits bs).length = 8 * bs.length := by
+    induction bs with
+    | nil => rfl
+    | cons b bs ih =>
+      have e : bytesToBits (b :: bs) = byteBits b ++ bytesToBits bs := by simp [bytesToBits]
+      rw [e, List.length_append, byteBits_length, ih]; simp; omega
+  omega
+
+theorem list8 {α} (s : List α) (h : s.length = 8) :
+    ∃ a0 a1 a2 a3 a4 a5 a6 a7, s = [a0, a1, a2, a3, a4, a5, a6, a7] := by
+  match s, h with
+  | [a0, a1, a2, a3, a4, a5, a6, a7], _ => exact ⟨a0, a1, a2, a3, a4, a5, a6, a7, rfl⟩
+
+/-- bits → bytes → bits is the identity on a whole number of bytes -/
+theorem bytesToBits_bitsToBytesAux : ∀ (fuel : Nat) (x : Bits), x.length ≤ fuel → x.length % 8 = 0 →
+    bytesToBits (bitsToBytesAux fuel x) = x := by
+  intro fuel
+  induction fuel with
+  | zero =>
+    intro x h _
+    have : x = [] := by simpa using h
+    subst this; rfl
+  | succ f ih =>
+    intro x h h8
+    cases x with
+    | nil => rfl
+    | cons y ys =>
+      have hlen : 8 ≤ (y :: ys).length := by
+        have : 0 < (y :: ys).length := by simp
+        omega
+      simp only [bitsToBytesAux]
+      simp only [List.length_cons] at hlen h h8
+      obtain ⟨a0, a1, a2, a3, a4, a5, a6, a7, ht⟩ := list8 ((y :: ys).take 8) (by simp; omega)
+      have hsplit := List.take_append_drop 8 (y :: ys)
+      have e : bytesToBits (BitVec.ofNat 8 (bitsVal ((y :: ys).take 8)) :: bitsToBytesAux f ((y :: ys).drop 8))
+          = byteBits (BitVec.ofNat 8 (bitsVal ((y :: ys).take 8))) ++ bytesToBits (bitsToBytesAux f ((y :: ys).drop 8)) := by
+        simp [bytesToBits]
+      rw [e, ih _ (by simp; omega) (by simp; omega), ht, byteBits_ofNat_bitsVal, ← ht, hsplit]
+
+theorem bytesToBits_bitsToBytes (x : Bits) (h : x.length % 8 = 0) : bytesToBits (bitsToBytes x) = x :=
+  bytesToBits_bitsToBytesAux _ x (Nat.le_refl _) h
+
+theorem bytesToBits_length (bs : Bytes) : (bytesToBits bs).length = 8 * bs.length := by
+  induction bs with
+  | nil => rfl
+  | cons b bs ih =>
+    have e : bytesToBits (b :: bs) = byteBits b ++ bytesToBits bs := by simp [bytesToBits]
+    rw [e, List.length_append, byteBits_length, ih]; simp; omega
+
+/-! ## the block functions -/
+
+/-- **DES: deciphering inverts enciphering** (any key schedule, any 8-byte block) -/
+theorem cryptBlock_inverse (ks : List Bits) (b : Bytes) (hb : b.length = 8) :
+    cryptBlock ks.reverse (cryptBlock ks b) = b := by
+  unfold cryptBlock
+  rw [bytesToBits_bitsToBytes _ (by rw [cryptBits_length]),
+    cryptBits_inverse ks _ (by rw [bytesToBits_length, hb]), bitsToBytes_bytesToBits]
+
+theorem cryptBlock_length (ks : List Bits) (b : Bytes) : (cryptBlock ks b).length = 8 := by
+  have h := congrArg List.length (bytesToBits_bitsToBytes (cryptBits ks (bytesToBits b))
+    (by rw [cryptBits_length]))
+  rw [bytesToBits_length, cryptBits_length] at h
+  unfold cryptBlock
+  omega
+
+theorem encryptBlock_length (key b : Bytes) : (encryptBlock key b).length = 8 := cryptBlock_length _ _
+theorem decryptBlock_length (key b : Bytes) : (decryptBlock key b).length = 8 := cryptBlock_length _ _
+
+theorem des_decrypt_encrypt (key b : Bytes) (hb : b.length = 8) :
+    decryptBlock key (encryptBlock key b) = b := cryptBlock_inverse _ b hb
+
+theorem des_encrypt_decrypt (key b : Bytes) (hb : b.length = 8) :
+    encryptBlock key (decryptBlock key b) = b := by
+  have := cryptBlock_inverse (keySchedule key).reverse b hb
+  rwa [List.reverse_reverse] at this
+
+/-- **Triple-DES (EDE): decryption inverts encryption** for all three keys -/
+theorem tdes_decrypt_encrypt (k1 k2 k3 b : Bytes) (hb : b.length = 8) :
+    tdesDecryptBlock k1 k2 k3 (tdesEncryptBlock k1 k2 k3 b) = b := by
+  unfold tdesDecryptBlock tdesEncryptBlock
+  rw [des_decrypt_encrypt k3 _ (decryptBlock_length _ _), des_encrypt_decrypt k2 _ (encryptBlock_length _ _),
+    des_decrypt_encrypt k1 b hb]
+
+theorem tdes_encrypt_decrypt (k1 k2 k3 b : Bytes) (hb : b.length = 8) :
+    tdesEncryptBlock k1 k2 k3 (tdesDecryptBlock k1 k2 k3 b) = b := by
+  unfold tdesDecryptBlock tdesEncryptBlock
+  rw [des_encrypt_decrypt k1 _ (encryptBlock_length _ _), des_decrypt_encrypt k2 _ (decryptBlock_length _ _),
+    des_encrypt_decrypt k3 b hb]
+
 end MgProof.C12
